@@ -301,6 +301,7 @@ def applyOp (s : St) (ws : List String) : St × String :=
     | none => (s, "bad-hex")
   | "spec.parse" :: _ :: expected => (s, "ok " ++ " ".intercalate expected)
   | ["spec.reject", _] => (s, "reject")
+  | ["spec.accept", _] => (s, "accepted")
   | ["spec.noparsepanic", _] => (s, "ok")
   | "fmt" :: toks =>
     match Asm.parseProgram toks with
